@@ -109,15 +109,26 @@ Print Assumptions C04_proxy_transparent.
    Extra hypotheses, explicit: evaluated individuals have a non-empty
    signature; the wrapped evaluator reads back what it wrote. *)
 Theorem C04_proxy_sessions_transparent :
-  forall (ind data : Type) (sig : ind -> key) (eva : data -> ind -> fitness) (P : ind -> Prop)
+  forall (ind data : Type) (sig : ind -> key) (eva evaf : data -> ind -> fitness) (P : ind -> Prop)
          (eva_toks : list tok) (eva_load : list tok -> option (list tok)),
   (forall x y, P x -> P y -> sig x = sig y -> forall d, eva d x = eva d y) ->
   (forall x, P x -> sig x <> key0) ->
   (forall r, eva_load (eva_toks ++ r) = Some r) ->
   forall bits d evs, qwf ind data P false evs ->
-  qrun ind data sig eva eva_toks eva_load (mkp data (fresh bits) d) evs = (qdirect ind data eva d evs, true).
+  qrun ind data sig eva evaf eva_toks eva_load (mkp data (fresh bits) d) evs = (qdirect ind data eva evaf d evs, true).
 Proof. exact proxy_sessions_transparent. Qed.
 Print Assumptions C04_proxy_sessions_transparent.
+
+(* evaluator_proxy::fast hands out the wrapped evaluator's approximate value
+   and leaves the proxy -- hence every later operator() answer -- unchanged;
+   the histories of C04_proxy_sessions_transparent may contain QFast anywhere *)
+Theorem C04_fast_leaves_cache :
+  forall (ind data : Type) (sig : ind -> key) (eva evaf : data -> ind -> fitness)
+         (eva_toks : list tok) (eva_load : list tok -> option (list tok)) (s : pstate data) (x : ind),
+  fst (fst (qstep ind data sig eva evaf eva_toks eva_load s (QFast ind data x))) = s /\
+  snd (fst (qstep ind data sig eva evaf eva_toks eva_load s (QFast ind data x))) = Some (evaf (pdata data s) x).
+Proof. exact fast_leaves_cache. Qed.
+Print Assumptions C04_fast_leaves_cache.
 
 (* the histories evolution::run produces -- first evaluation, then per
    generation: if the validation strategy shakes (data change + clear of the
@@ -126,15 +137,15 @@ Print Assumptions C04_proxy_sessions_transparent.
    the proxy answers like the wrapped evaluator, the refreshed fitness of the
    best individual included *)
 Theorem C04_evolution_run_transparent :
-  forall (ind data : Type) (sig : ind -> key) (eva : data -> ind -> fitness) (P : ind -> Prop)
+  forall (ind data : Type) (sig : ind -> key) (eva evaf : data -> ind -> fitness) (P : ind -> Prop)
          (eva_toks : list tok) (eva_load : list tok -> option (list tok)),
   (forall x y, P x -> P y -> sig x = sig y -> forall d, eva d x = eva d y) ->
   (forall x, P x -> sig x <> key0) ->
   (forall r, eva_load (eva_toks ++ r) = Some r) ->
   forall bits d first gens,
   P first -> Forall (fun g => P (snd (fst g)) /\ Forall P (snd g)) gens ->
-  qrun ind data sig eva eva_toks eva_load (mkp data (fresh bits) d) (evolution_run ind data first gens) =
-    (qdirect ind data eva d (evolution_run ind data first gens), true).
+  qrun ind data sig eva evaf eva_toks eva_load (mkp data (fresh bits) d) (evolution_run ind data first gens) =
+    (qdirect ind data eva evaf d (evolution_run ind data first gens), true).
 Proof. exact evolution_run_transparent. Qed.
 Print Assumptions C04_evolution_run_transparent.
 
@@ -147,15 +158,15 @@ Print Assumptions C04_evolution_run_transparent.
    theorem, so the proxy is transparent along it.  (That the real dss::init
    clears for run 0 too is what the D scripts of the check exercise.) *)
 Theorem C04_search_session_transparent :
-  forall (ind data : Type) (sig : ind -> key) (eva : data -> ind -> fitness) (P : ind -> Prop)
+  forall (ind data : Type) (sig : ind -> key) (eva evaf : data -> ind -> fitness) (P : ind -> Prop)
          (eva_toks : list tok) (eva_load : list tok -> option (list tok)),
   (forall x y, P x -> P y -> sig x = sig y -> forall d, eva d x = eva d y) ->
   (forall x, P x -> sig x <> key0) ->
   (forall r, eva_load (eva_toks ++ r) = Some r) ->
   forall bits d restored pre runs,
   Forall P pre -> Forall (run_inds ind data P) runs ->
-  qrun ind data sig eva eva_toks eva_load (mkp data (fresh bits) d) (search_session ind data restored pre runs) =
-    (qdirect ind data eva d (search_session ind data restored pre runs), true).
+  qrun ind data sig eva evaf eva_toks eva_load (mkp data (fresh bits) d) (search_session ind data restored pre runs) =
+    (qdirect ind data eva evaf d (search_session ind data restored pre runs), true).
 Proof. exact search_session_transparent. Qed.
 Print Assumptions C04_search_session_transparent.
 
@@ -242,7 +253,7 @@ Example C04_nonvacuous_evolution :
   let sig := fun x : N => (x + 1, 7) in
   let eva := fun (d : N) (x : N) => [d * 10 + x] in
   let evs := evolution_run N N 3 [(None, 3, [4; 5; 4]); (Some 2, 4, [5; 6])] ++ [QEval N N 5; QEval N N 3] in
-  qrun N N sig eva [TNum 4242; TNL] (fun s => match read_num s with Some (4242, r) => Some r | _ => None end)
+  qrun N N sig eva (fun d x => [d * 10 + x + 1000]) [TNum 4242; TNL] (fun s => match read_num s with Some (4242, r) => Some r | _ => None end)
        (mkp N (fresh 7) 1) evs =
   ([Some [13]; Some [14]; Some [15]; Some [14]; None; None; Some [24]; Some [25]; Some [26]; None;
     Some [25]; Some [23]], true).
@@ -255,10 +266,20 @@ Example C04_nonvacuous_search_session :
   let eva := fun (d : N) (x : N) => [d * 10 + x] in
   let evs := search_session N N true [3; 4]
                [(2, 3, [(None, 3, [4]); (Some 5, 4, [3])], 6, [3]); (7, 4, [], 8, [])] in
-  fst (qrun N N sig eva [TNum 4242; TNL] (fun s => match read_num s with Some (4242, r) => Some r | _ => None end)
+  fst (qrun N N sig eva (fun d x => [d * 10 + x + 1000]) [TNum 4242; TNL] (fun s => match read_num s with Some (4242, r) => Some r | _ => None end)
             (mkp N (fresh 7) 1) evs) =
   [None; Some [13]; Some [14]; None; None; Some [23]; Some [24]; None; None; Some [54]; Some [53];
    None; None; Some [63]; None; None; Some [74]; None; None; None].
+Proof. vm_compute. reflexivity. Qed.
+
+(* fast() before, between and after operator() on the same individual: the
+   approximate value never leaks into an exact answer, nor the reverse *)
+Example C04_nonvacuous_fast :
+  let sig := fun x : N => (x + 1, 7) in
+  let evs := [QFast N N 3; QEval N N 3; QFast N N 3; QEval N N 3; QClear N N; QFast N N 3; QEval N N 3] in
+  fst (qrun N N sig (fun d x => [d * 10 + x]) (fun d x => [d * 10 + x + 1000]) [TNum 4242; TNL]
+            (fun s => match read_num s with Some (4242, r) => Some r | _ => None end) (mkp N (fresh 7) 1) evs) =
+  [Some [1013]; Some [13]; Some [1013]; Some [13]; None; Some [1013]; Some [13]].
 Proof. vm_compute. reflexivity. Qed.
 
 (* the boundary of `k' <> key0`: clear(key) leaves a zeroed key, a live seal
